@@ -405,7 +405,7 @@ func GenID(t *rapid.T, label string) *OJ {
 	case 0:
 		return oStr("")
 	case 1:
-		return oStr(rapid.SampledFrom([]string{"1", "a", "id-é", "\"q\"", "0", "null", "💥", "a\nb", "job-100%", "%d%s%v%n", "a\\b", "\u2028", "<>&"}).Draw(t, label+"s"))
+		return oStr(rapid.SampledFrom([]string{"1", "a", "id-é", "\"q\"", "0", "null", "💥", "a\nb", "a\ndata: x", "x\r\ny", "a\n\nb", "id: 7\nretry: 1", "job-100%", "%d%s%v%n", "a\\b", "\u2028", "<>&"}).Draw(t, label+"s"))
 	case 2:
 		return oInt(rapid.SampledFrom([]int64{0, -1, 1 << 31, 1<<53 - 1, 1 << 53, -(1 << 53), 1e15}).Draw(t, label+"big"))
 	case 3:
